@@ -335,6 +335,22 @@ def m3(ck, em, rng, ntraces):
                         sc_ = float(np.max(np.abs(one))) + 1e-12
                         fact("ItemsScoredIndependently", allc.shape == one.shape and np.max(np.abs(allc - one)) <= 1e-9 * sc_,
                              items=k, offsets=how, normalised=nrm, together=allc.tolist(), alone=one.tolist())
+            # models given as MACHINES that are almost the UBM (steps of 1e-7, 1e-6, 1 along one direction, same weights
+            # and variances): rows are per model object, the score is linear in the step
+            dirn = r.normal(size=(c, d))
+            steps = [0.0, 1e-7, 1e-6, 1.0]
+            near_m = [gmm(mu + h * dirn, var) for h in steps]
+            near_a = np.array([mu + h * dirn for h in steps])
+            for nrm in (False, True):
+                sm = np.asarray(em.linear_scoring(near_m, ubm, [stats], [off], nrm))
+                sa_ = np.asarray(em.linear_scoring(near_a, ubm, [stats], [off], nrm))
+                one = np.concatenate([np.asarray(em.linear_scoring([mm_], ubm, [stats], [off], nrm)) for mm_ in near_m], axis=0)
+                top = float(np.max(np.abs(sa_))) + 1e-300
+                fact("MachinesEqArrays.near_duplicates", sm.shape == sa_.shape and np.max(np.abs(sm - sa_)) <= 1e-9 * top
+                     and np.max(np.abs(one - sa_)) <= 1e-9 * top, normalised=nrm, machines=sm.tolist(), arrays=sa_.tolist())
+                fact("LinearInOffset.small_steps", abs(float(sa_[1, 0]) - 1e-7 * float(sa_[3, 0])) <= 1e-6 * abs(1e-7 * float(sa_[3, 0])) + 1e-300
+                     and abs(float(sm[1, 0]) - 1e-7 * float(sm[3, 0])) <= 1e-6 * abs(1e-7 * float(sm[3, 0])) + 1e-300,
+                     normalised=nrm, step_1e_7=float(sm[1, 0]), step_1=float(sm[3, 0]))
             # the storage type of the UBM's parameters is not part of the formula: a UBM whose (float32-representable)
             # means are kept in single precision scores double-precision models like the same UBM kept in double
             # precision; models a small step away from a UBM far from the origin make any rounding of the model visible
